@@ -39,6 +39,7 @@ TREES = {
                       _file("N.sol", "c7")]},
     "contracts": {"entries": [_file("B.sol", "c2")]},
     "E": {"entries": []},
+    "S": {"entries": [_file("D.sol", "c1"), _file("D.t.sol", "c2")]},
 }
 
 
@@ -124,12 +125,13 @@ def execute(hb, sb, items, workdir):
         os.makedirs(work)
         _materialise(os.path.join(root, "P"), TREES["P"], cont)
         _materialise(os.path.join(root, "E"), TREES["E"], cont)
+        _materialise(os.path.join(root, "Vault.sol"), TREES["S"], cont)
         reports = os.path.join(scratch, "reports")
         os.makedirs(reports)
         cdir = os.path.join(work, "contracts")
         rpath = os.path.join(work, "solstat_report.md")
         stale = b"# stale report of an earlier run\n- Old.sol:1\n"
-        pathof = {"P": "../P", "E": "../E", "Q": "../Q", "contracts": "./contracts"}
+        pathof = {"P": "../P", "E": "../E", "Q": "../Q", "contracts": "./contracts", "S": "../Vault.sol"}
         for i, b in enumerate(items):
             inp = b["inp"]
             if inp["contracts"] and not os.path.isdir(cdir):
